@@ -15,7 +15,7 @@ META = {
     "engine": "E4 process-level engine",
     "rule": (
         "seeded random daemons: YAML configurations (pipelines of 1-6 elements mixing !Tag and __type__ forms, "
-        "service elements of all three flavours next to plain and shipped elements, optional logging section and "
+        "service elements of all three flavours (one of them an empty composite-like pool that evaluates to False) next to plain and shipped elements, optional logging section and "
         "extra section, .yaml / .yml) and Python configurations (pipelines built with >>, objects bound to "
         "names); SIGINT 0.2-1.0 s after every service has beaten >= 4 times (after a forced gc.collect inside "
         "the services); kind=invalid: unknown section, missing pipeline, constructor error, YAML syntax error, "
@@ -31,7 +31,7 @@ META = {
     "max_jobs": 16,
 }
 LOG_LINE = re.compile(r"^\d{4}-\d{2}-\d{2} [\d:]+\s+\(\d+\) .*(runner aborted|runner terminated|aborted)", re.M)
-SERVICE_TAGS = {"VSvcCtrl": "trio", "VSvcDeco": "asyncio", "VSvcThread": "threading", "VSvcPool": "trio"}
+SERVICE_TAGS = {"VSvcCtrl": "trio", "VSvcDeco": "asyncio", "VSvcThread": "threading", "VSvcPool": "trio", "VSvcEmpty": "trio"}
 
 
 def plan(tier, seed):
@@ -47,7 +47,7 @@ def gen_pipeline(rnd):
     for i in range(n):
         tail = i == n - 1
         if tail:
-            cls = rnd.choice(["VSvcPool", "VSvcPool", "VPool"])
+            cls = rnd.choice(["VSvcPool", "VSvcPool", "VPool", "VSvcEmpty"])
         elif i == 0:
             cls = rnd.choice(["VSvcCtrl", "VSvcCtrl", "VSvcDeco", "VSvcThread", "VDeco", "LinearController"])
         else:
@@ -75,7 +75,7 @@ def yaml_text(rnd, elems, logging, extra):
     lines.append("pipeline:")
     for cls, label, kwargs in elems:
         items = ", ".join("%s: %s" % (k, v) for k, v in kwargs.items())
-        if cls in ("VSvcCtrl", "VSvcDeco", "VSvcThread", "VSvcPool", "VDeco", "VPool") and rnd.random() < 0.35:
+        if cls in ("VSvcCtrl", "VSvcDeco", "VSvcThread", "VSvcPool", "VSvcEmpty", "VDeco", "VPool") and rnd.random() < 0.35:
             lines.append("  - {__type__: vplug.%s%s}" % (cls, (", " + items) if items else ""))
         elif items:
             lines.append("  - !%s {%s}" % (cls, items))
@@ -87,7 +87,7 @@ def yaml_text(rnd, elems, logging, extra):
 
 
 def python_text(rnd, elems):
-    imports = ["from vplug import VSvcCtrl, VSvcDeco, VSvcThread, VSvcPool, VDeco, VPool",
+    imports = ["from vplug import VSvcCtrl, VSvcDeco, VSvcThread, VSvcPool, VSvcEmpty, VDeco, VPool",
                "from cobald.controller.linear import LinearController", "from cobald.decorator.standardiser import Standardiser",
                "from cobald.decorator.logger import Logger"]
     parts = []
@@ -209,6 +209,8 @@ def execute(case, result):
             if flavour[lb] != "threading" and not run.of("cancelled", lb):
                 bad("service %s (%s) was not cancelled on SIGINT" % (lb, flavour[lb]))
             result.count("services_checked_%s" % flavour[lb])
+            if any(e[0] == "VSvcEmpty" and e[1] == lb for e in case["elems"]):
+                result.count("falsy_services_checked")
         if run.exit_code != 0:
             bad("exit status %s after SIGINT, expected 0" % run.exit_code)
         if "Traceback" in run.stderr:
@@ -243,7 +245,7 @@ def run_shard(spec):
 
 def finish(total, tier):
     need = ["daemons_valid", "daemons_invalid", "daemons_failing", "configs_yaml", "configs_python", "services_checked_trio",
-            "services_checked_asyncio", "services_checked_threading", "failing_services_after_start", "valid_with_logging_section"]
+            "services_checked_asyncio", "services_checked_threading", "failing_services_after_start", "valid_with_logging_section", "falsy_services_checked"]
     for name in need:
         if not total.counters.get(name) and not total.violations:
             total.inconc("monitor never observed: " + name)
